@@ -97,6 +97,12 @@ def run_seeded(W, cfg):
         out = D.dark_current(rate, shape=shp, fpn_factor=fpn, seed=seed)
         out2 = D.dark_current(rate, shape=shp, fpn_factor=fpn, seed=seed)
         W.ob('same seed: same fixed pattern', out2, out)
+        # the caller scales the frame it was given in place (dark *= exposure time): a later call with the same arguments is unaffected
+        keep = out.copy()
+        out *= 2
+        out3 = D.dark_current(rate, shape=shp, fpn_factor=fpn, seed=seed)
+        W.ob('same seed after the caller edited the earlier frame in place: the same fixed pattern', out3, keep)
+        W.ob_true('a fresh array every time', not W.same(out3, out) and not W.same(out3, out2))
         for i in range(shp[0]):
             for j in range(shp[1]):
                 W.ob_true(f'non-negative [{i},{j}]', out[i, j] >= 0)
